@@ -34,7 +34,9 @@ type c12Conn struct {
 	in       chan []byte
 	closedCh chan struct{}
 	closed   int32
-	deadline int64 // virtual ns (from vapi.NowNs); 0 = none
+	deadline int64 // read deadline, virtual ns (from vapi.NowNs); 0 = none
+	wdeadline int64 // write deadline, same clock; 0 = none
+	writeTimeouts int32
 	writes   [][]byte
 	readBytes int32
 	writesAfterClose int32
@@ -73,6 +75,11 @@ func (c *c12Conn) Write(b []byte) (int, error) {
 		atomic.AddInt32(&c.writesAfterClose, 1)
 		return 0, net.ErrClosed
 	}
+	if dl := atomic.LoadInt64(&c.wdeadline); dl != 0 && dl-c12Now() <= 0 {
+		// like a real socket: a write after its deadline has passed fails
+		atomic.AddInt32(&c.writeTimeouts, 1)
+		return 0, c12Timeout{}
+	}
 	d := make([]byte, len(b))
 	copy(d, b)
 	c.writes = append(c.writes, d)
@@ -86,7 +93,10 @@ func (c *c12Conn) Close() error {
 }
 func (c *c12Conn) LocalAddr() net.Addr           { return c12Addr{} }
 func (c *c12Conn) RemoteAddr() net.Addr          { return c12Addr{} }
-func (c *c12Conn) SetDeadline(t time.Time) error { return c.SetReadDeadline(t) }
+func (c *c12Conn) SetDeadline(t time.Time) error {
+	_ = c.SetWriteDeadline(t)
+	return c.SetReadDeadline(t)
+}
 func (c *c12Conn) SetReadDeadline(t time.Time) error {
 	if t.IsZero() {
 		atomic.StoreInt64(&c.deadline, 0)
@@ -95,7 +105,14 @@ func (c *c12Conn) SetReadDeadline(t time.Time) error {
 	}
 	return nil
 }
-func (c *c12Conn) SetWriteDeadline(t time.Time) error { return nil }
+func (c *c12Conn) SetWriteDeadline(t time.Time) error {
+	if t.IsZero() {
+		atomic.StoreInt64(&c.wdeadline, 0)
+	} else {
+		atomic.StoreInt64(&c.wdeadline, c12Now()+int64(time.Until(t)))
+	}
+	return nil
+}
 
 var c12Start = time.Now()
 
